@@ -7,6 +7,7 @@ CONSTANTS
   CLimits = {1}
   MaxCalls = 1000000
   MaxDialFail = 1000000
+  DEAD_ADMITS = FALSE
   DONE_EARLY = FALSE
   DOUBLE_COUNT = FALSE
 CONSTRAINT HWM
